@@ -16,6 +16,29 @@ def _hist_nontrivial(sx, v, meta):
     return v[0] == 'ok' and len(v[2]) > 0 and int(v[2][0]) >= 2
 
 PROPS = {
+    'C14': dict(
+        parts=[dict(harness='C14', judge='C14', cases=dict(quick=6000, thorough=50000), judge_module='Judge.J14', judge_fn='judge_C14'),
+               dict(harness='C14opt', judge='C03', cases=dict(quick=3000, thorough=30000))],
+        rule='part 1: problems (CNF, 3-SAT, cardinality, PB, pigeonhole as clauses and as cardinality constraints, binary-rich CNF '
+             'with and without PB constraints; 2..9 variables quick, 2..13 thorough) solved with CuttingPlanes=true, half of them '
+             'after DetectAtMostOne, a quarter with a learned-constraint limit of 4; every answer is judged against the oracle '
+             '(which subsumes strategy on = strategy off) and every learned constraint still held by the solver (hook) must be '
+             'entailed by the problem; part 2: the C03 optimisation cases (API route) with CuttingPlanes=true. Non-trivial = '
+             'at least 2 constraints',
+        nontrivial=_solve_nontrivial, stats=_verdict_stats,
+        assumptions=['termination and absence of panics are observed per run, not proved'],
+    ),
+    'C15': dict(
+        parts=[dict(harness='C15', judge='C15', cases=dict(quick=6000, thorough=50000), judge_module='Judge.J14', judge_fn='judge_C15'),
+               dict(harness='C15solve', judge='solve', cases=dict(quick=3000, thorough=30000))],
+        rule='binary-rich CNF problems (1..3 groups of 2..5 literals encoded pairwise, 2/3 over negative literals, 1/8 of the pairs '
+             'missing, 1/10 repeated, plus binaries in no group, long clauses and sometimes cardinality constraints placed after '
+             'the binaries; also random CNF and pigeonhole; 3..9 variables quick, 3..12 thorough); part 1: Problem after '
+             'DetectAtMostOne (read back from PBString) has exactly the models of the input, by enumeration; part 2: solving after '
+             'detection gives the oracle verdict and a model of the input. Non-trivial = detection removed at least one clause',
+        nontrivial=lambda sx, v, meta: v[0] == 'ok' and len(v[2]) > 1 and int(v[2][1]) > 0,
+        assumptions=[],
+    ),
     'C09': dict(
         judge='C09', judge_module='Judge.J09', judge_fn='judge_C09',
         cases=dict(quick=6000, thorough=60000),
